@@ -89,7 +89,7 @@ def classified : List (String × Bool) := [
   ("verit_or_neg", true),
   ("verit_or_pos", true),
   ("verit_or_simplify", true),
-  ("verit_prod_simplify", false),
+  ("verit_prod_simplify", true),
   ("verit_qnt_cnf", false),
   ("verit_qnt_join", false),
   ("verit_qnt_rm_unused", false),
@@ -120,7 +120,7 @@ theorem registry_classified : classified.map (·.1) = Gen.namesSorted := by deci
 theorem tier1_modelled : ∀ r ∈ Rule.all, (r.name, true) ∈ classified := by decide +kernel
 
 /-- … plus `verit_la_generic`, whose model (ModelLA.lean) works on parsed linear arithmetic -/
-theorem tier1_count : tier1.length = Rule.all.length + 8 ∧ ("verit_la_generic", true) ∈ classified
+theorem tier1_count : tier1.length = Rule.all.length + 9 ∧ ("verit_la_generic", true) ∈ classified
     ∧ ("verit_div_simplify", true) ∈ classified ∧ ("verit_eq_simplify", true) ∈ classified
     ∧ ("verit_comp_simplify", true) ∈ classified ∧ ("verit_minus_simplify", true) ∈ classified
     ∧ ("verit_unary_minus_simplify", true) ∈ classified := by decide +kernel
